@@ -155,7 +155,8 @@ func (m *minimiser) run() {
 	}
 	// 3. simplify configuration knobs
 	simplify := []func(c *SimCfg) bool{
-		func(c *SimCfg) bool { ch := c.FuncYield; c.FuncYield = false; return ch },
+		func(c *SimCfg) bool { ch := c.StmtYield; c.StmtYield = false; return ch },
+		func(c *SimCfg) bool { ch := c.FuncYield; c.FuncYield = false; c.StmtYield = false; return ch },
 		func(c *SimCfg) bool { ch := c.Background; c.Background = false; return ch },
 		func(c *SimCfg) bool { ch := c.Policy != 0; c.Policy = 0; return ch },
 		func(c *SimCfg) bool { ch := c.QuantumNS != 1000; c.QuantumNS = 1000; return ch },
